@@ -91,6 +91,7 @@ package lexer
 //@   loop 0 invariant wfr(l.reader) && sameInput(l.reader) && H0(l.reader) && M(l.reader) <= old(M(l.reader)) && zeroEOF(l.reader)
 //@   loop 0 invariant[C06] old(nlPending(l.reader)) - nlPending(l.reader) == nlwritten(buf)
 //@   loop 0 decreases M(l.reader)
+//@   witness inv-keep:0.1.0#0 "a = \"x \\\ny\"\n1 + \"s\"\n" expect ":::2:::"
 
 //@ # reserved words map to parser token kinds: every value stored in `reserved` is the rune NIL
 //@ spec reservedOK() = forall(k, "string", has(reserved, k) ==> typeis(reserved[k], "int32") && unboxint(reserved[k]) == base.NIL)
